@@ -425,7 +425,7 @@ func runReplays(dir string, files []string) (map[string]*replayOutcome, string, 
 	listPath := filepath.Join(outDir, fmt.Sprintf("replaylist.%d.%s.txt", os.Getpid(), dir))
 	os.WriteFile(listPath, []byte(strings.Join(files, "\n")), 0o644)
 	defer os.Remove(listPath)
-	cmd := exec.Command("go", "test", "-vet=off", "-count=1", "-overlay", ovPath, "-run", "^TestVerifReplay$", "-timeout", "20m", "./"+harnessDirs[dir])
+	cmd := exec.Command("go", "test", "-vet=off", "-count=1", "-overlay", ovPath, "-run", "^TestVerifReplay$", "-timeout", "90m", "./"+harnessDirs[dir])
 	cmd.Dir = repoDir
 	cmd.Env = append(append(os.Environ(), goEnv...), "VERIF_REPLAY_LIST="+listPath)
 	out, err := cmd.CombinedOutput()
